@@ -884,6 +884,33 @@ theorem idx_beginBlock {s : State} (hi : IdxInv s) (app : Nat) : IdxInv (beginBl
   show IdxOk (s.orders.filter _) s.pairs s.mm
   exact hi.filter _
 
+/-- the store migration keeps keys, owners and liveness; it produces no market-making order -/
+theorem idx_migrate {cfg : Cfg} {s s' : State} (hi : IdxInv s) (h : migrate cfg s = some s') : IdxInv s' := by
+  unfold migrate at h
+  split at h
+  · rename_i hv
+    cases h
+    obtain ⟨hty, -, -⟩ := hv
+    show IdxOk (s.orders.map _) s.pairs s.mm
+    refine ⟨?_, ?_, ?_⟩
+    · rw [List.map_map]
+      have : (Order.key ∘ fun o : Order => if (cfg.app? o.app).isSome then { o with typ := .limit } else o) = Order.key := by
+        funext o; simp only [Function.comp]; split <;> rfl
+      rw [this]; exact hi.uniq
+    · intro o ho
+      obtain ⟨o0, ho0, rfl⟩ := List.mem_map.mp ho
+      have := hi.bound o0 ho0
+      split
+      · exact this
+      · exact this
+    · intro o ho ht
+      obtain ⟨o0, ho0, rfl⟩ := List.mem_map.mp ho
+      exfalso
+      split at ht
+      · cases ht
+      · exact hty o0 ho0 ht
+  · cases h
+
 /-! ### every step, every history -/
 
 theorem step_idx {cfg : Cfg} (hsw : cfg.swapLookup = false) {s s' : State} {op : Op} (hi : IdxInv s) (h : step cfg s op = some s') :
@@ -913,6 +940,7 @@ theorem step_idx {cfg : Cfg} (hsw : cfg.swapLookup = false) {s s' : State} {op :
   | unfarmAndWithdraw a u p n x y e => exact hi.of_same (os_unfarmAndWithdraw h)
   | endBlock a ms ds ws => exact idx_endBlock hi h
   | beginBlock a => simp only [step, Option.some.injEq] at h; subst h; exact idx_beginBlock hi a
+  | migrate => exact idx_migrate hi h
 
 theorem stepT_idx {cfg : Cfg} (hsw : cfg.swapLookup = false) {s : State} (op : Op) (hi : IdxInv s) : IdxInv (stepT cfg s op) := by
   unfold stepT
